@@ -266,3 +266,50 @@ def ownedList (cur : FileId) : List Node → Stream
 end
 
 end SnootyVerif.Diag
+
+/-! ## the store under update / delete (`PageDatabase.__setitem__`, `set_orphan_diagnostics`, `__delitem__`)
+
+What `merge_diagnostics` reads is the state the mutation history left behind. Python `del d[k]` removes the entry; a later
+assignment re-adds it at the end of the dict. -/
+namespace SnootyVerif.Diag
+
+structure Store where
+  parsed : List Out
+  orphan : DMap
+deriving Repr
+
+inductive Op where
+  /-- `db[out] = (page, src, diagnostics)` -/
+  | set (o : Out)
+  /-- `db.set_orphan_diagnostics(k, ds)` -/
+  | setOrphan (k : FileId) (ds : List D)
+  /-- `del db[k]`: forgets the stored page of that key AND the orphan diagnostics of that key; missing keys are ignored -/
+  | del (k : FileId)
+deriving Repr
+
+def Store.empty : Store := ⟨[], []⟩
+
+def Store.step (s : Store) : Op → Store
+  | .set o => { s with parsed := storeSet s.parsed o }
+  | .setOrphan k ds => { s with orphan := dictSet s.orphan k ds }
+  | .del k => { parsed := s.parsed.filter (fun o => o.out != k), orphan := s.orphan.filter (fun e => e.1 != k) }
+
+def Store.run (ops : List Op) : Store := ops.foldl Store.step Store.empty
+
+def lookupOut (m : List Out) (k : FileId) : Option Out := m.find? (fun o => o.out == k)
+
+/-- ABSTRACT SPEC (last write wins), read from the END of the history: the page stored under `k` -/
+def specOut : List Op → FileId → Option Out
+  | [], _ => none
+  | .set o :: earlier, k => if o.out = k then some o else specOut earlier k
+  | .setOrphan _ _ :: earlier, k => specOut earlier k
+  | .del k' :: earlier, k => if k' = k then none else specOut earlier k
+
+/-- ABSTRACT SPEC: the orphan diagnostics recorded for `k` -/
+def specOrphan : List Op → FileId → Option (List D)
+  | [], _ => none
+  | .set _ :: earlier, k => specOrphan earlier k
+  | .setOrphan k' ds :: earlier, k => if k' = k then some ds else specOrphan earlier k
+  | .del k' :: earlier, k => if k' = k then none else specOrphan earlier k
+
+end SnootyVerif.Diag
